@@ -158,7 +158,7 @@ func randomMutation(p *prog, root *model.Node) {
 // historyCases runs the probe / mutate rounds.
 func historyCases(c *fw.Ctx, sub string, nQuick, nThorough int, probe func(p *prog, root *model.Node, round int)) {
 	c.Cases(sub, c.N(nQuick, nThorough), false, func(i int, r *rng.R) {
-		p := &prog{c: c, r: r, h: &model.Heap{}}
+		p := &prog{c: c, r: r, h: &model.Heap{}, lazy: i%2 == 1}
 		guard(c, p.input, func() {
 			tree := genTreeFor(r)
 			if tree.Size() > 400 {
